@@ -291,19 +291,26 @@ def c03b(ctx, tu):
     for fn in tu.find("trompeloeil::times::action"):
         n_times += 1
         m = re.search(r"multiplicity<(\d+)(?:UL|ULL|U)?(?:, (\d+)(?:UL|ULL|U)?)?>", fn.rec["params"][1]["t"])
-        calls = [e for b, e in fn.events() if e["e"] == "call" and qe(e) == A["set_limits"]]
-        ok = bool(m) and len(calls) == 1
-        if ok:
-            lo = int(m.group(1))
-            hi = int(m.group(2)) if m.group(2) else lo
-            args = calls[0]["args"]
-            def val(a):
-                if a[:1] == ["int"]:
-                    return MAXSZ if a[1] == "max" else int(a[1])
-                return None
-            ok = val(args[0]) == lo and val(args[1]) == hi
-        ctx.ob("C03.b", "trompeloeil::times::action", ok, pattern=fn.pat, unit=tu.name, inst=fn.q,
-               detail="" if ok else "TIMES must pass the bounds of its multiplicity<L,H> argument to set_limits in that order")
+        if not m:
+            ctx.ob("C03.b", "trompeloeil::times::action", None, pattern=fn.pat, unit=tu.name, inst=fn.q,
+                   detail="the multiplicity<L,H> argument type was not recognised")
+            continue
+        lo = int(m.group(1))
+        hi = int(m.group(2)) if m.group(2) else lo
+        # what the clause stores into the handler (through set_limits, or whatever the setter is split into)
+        try:
+            o = Oracle(any_call=True, any_member=True, any_param=True).descend_into(tu, depth=4)
+            it = Interp(fn, o)
+            it.run(max_steps=2000)
+            st = role_stores(tu, it.effects)
+            ok = st.get(F_MIN) == lo and st.get(F_MAX) == hi and F_CNT not in st
+            ctx.ob("C03.b", "trompeloeil::times::action", ok, pattern=fn.pat, unit=tu.name, inst=fn.q,
+                   detail="" if ok else "TIMES must store the bounds of its multiplicity<L,H> argument (min %s, max %s) in the "
+                   "expectation's handler; it stores %s" % (lo, "unbounded" if hi == MAXSZ else hi,
+                                                            {k.rsplit("::", 1)[-1]: _show(v) for k, v in st.items()}))
+        except Unknown as u:
+            ctx.ob("C03.b", "trompeloeil::times::action", None, pattern=fn.pat, unit=tu.name, inst=fn.q,
+                   detail="cannot interpret: %s" % u)
     return n_times
 
 
